@@ -310,6 +310,17 @@ def _seg_case(rng, atoms=None):
     case["applyx"] = [_gen_applyx(rng, n) for _ in range(rng.choice([1, 1, 2]))]
     # the same annotations in an AtomArrayStack whose model count differs from the atom count (len(stack) != atoms)
     case["stack"] = rng.choice([d for d in (1, 2, 3, 5, n + 1, max(1, n - 1), 2 * n + 2) if d != n]) if rng.random() < 0.35 else 0
+    case["spell"] = rng.sample(IDX_SPELLINGS, 2)
+    case["dspell"] = rng.sample(DATA_SPELLINGS, 1)
+    case["mods"] = []
+    if n and rng.random() < 0.45:
+        # in-place edits of the annotations between two rounds of queries on the same array object
+        for _ in range(rng.choice([1, 1, 2, 3])):
+            k = rng.randrange(n)
+            new = list(atoms[k]) + [0] * (5 - len(atoms[k]))
+            f = rng.randrange(4)
+            new[f] = (new[f] + rng.choice([1, -1, 2])) if f == 1 else rng.randrange(len([CHAINS, None, INS, NAMES][f]))
+            case["mods"].append([k, new])
     case["ops"] = _seg_ops(case)
     return case
 
@@ -347,6 +358,16 @@ def _seg_ops(case):
                     f"positions {w} {_ints(case['bad_idx'])}"]
         if case.get("bad_spread") is not None:
             ops.append(f"spread {w} {_ints(case['bad_spread'])}")
+        if case.get("bad_idx") is not None or case.get("bad_spread") is not None:
+            # after the refused calls the same array answers as before
+            ops += [f"positions {w} {_ints(case['idx'])}", f"masks {w} {_ints(case['idx'])}"]
+    if case.get("mods") and atoms:
+        for k, new in case["mods"]:
+            ops.append(f"setatom {k} " + ":".join(str(x) for x in new))
+        for w in "rc":
+            ops += [f"starts {w} 1", f"count {w}", f"names {w}", f"iter {w}", f"masks {w} {_ints(case['idx'])}",
+                    f"startsfor {w} {_ints(case['idx'])}", f"positions {w} {_ints(case['idx'])}",
+                    f"apply {w} {case['fn']} {_ints(case['data'])}"]
     return ops
 
 
@@ -433,6 +454,7 @@ def _graph_ops(case):
     ops += ["molecules", "molmasks"]
     for ri, rj, ai, aj, t in case.get("edits") or []:
         ops += [f"rmbond {ri} {rj}", f"addbond {ai} {aj} {t}", "molecules", "molmasks"]
+        ops += [f"connected {r}" for r in case["roots"][:2]]
     if case.get("second"):
         ops += [f"graph {case['n']} " + ",".join("-".join(str(x) for x in b) for b in case["second"]), "molecules", "molmasks"]
     return ops
@@ -461,7 +483,8 @@ def _mk(atoms, **kw):
     c = {"kind": "seg", "atoms": atoms, "idx": kw.get("idx", []), "bad_idx": kw.get("bad_idx"),
          "data": kw.get("data", list(range(len(atoms)))), "fn": kw.get("fn", "sum"),
          "spread": {w: list(range(_n_segments(atoms, w))) for w in "rc"}, "bad_spread": kw.get("bad_spread"),
-         "applyx": kw.get("applyx", []), "stack": kw.get("stack", 0)}
+         "applyx": kw.get("applyx", []), "stack": kw.get("stack", 0), "mods": kw.get("mods", []),
+         "spell": kw.get("spell", []), "dspell": kw.get("dspell", [])}
     c["ops"] = _seg_ops(c)
     return c
 
@@ -494,6 +517,11 @@ def corpus():
             fn="minmax", applyx=[{"fn": "mean0", "kind": "i", "cols": 2, "data": list(range(10))}]),
         _mk([[0, 1, 0, 0], [0, 1, 0, 0], [0, 2, 0, 0]], idx=[2], stack=7),
         _mk([], stack=3, bad_idx=[0]),
+        # in-place annotation edits between two rounds of queries; every index / data spelling once
+        _mk([[0, 1, 0, 0], [0, 1, 0, 0], [0, 2, 0, 0], [1, 2, 0, 0], [1, 1, 0, 0]], idx=[4, 0, 2, 2], bad_idx=[0, 5],
+            mods=[[1, [0, 2, 0, 0, 0]], [4, [1, 2, 0, 0, 0]]], spell=list(IDX_SPELLINGS), dspell=list(DATA_SPELLINGS),
+            applyx=[{"fn": "sumall", "kind": "i", "cols": 2, "data": list(range(10))},
+                    {"fn": "mean0", "kind": "f", "cols": 3, "data": list(range(15))}]),
         # residue names / chain ids that differ only in the 4th/5th (4th) character
         _mk([[5, 1, 0, 4, 1], [5, 1, 0, 5, 1], [6, 1, 0, 5, 1], [6, 1, 0, 6, 1], [6, 1, 0, 7, 1]], idx=[0, 1, 2, 3, 4]),
         # waters whose numbering restarts inside one chain id: a new chain starts at the res_id decrease
@@ -638,6 +666,9 @@ def _seg_impl(case):
                 atoms = [] if w[1] == "_" else [[int(x) for x in a.split(":")] for a in w[1].split(",")]
                 arr = _atom_array(atoms, depth)
                 out.append(f"ok {arr.array_length()}")
+            elif w[0] == "setatom":
+                _set_atom(arr, int(w[1]), [int(x) for x in w[2].split(":")])
+                out.append("ok")
             elif w[0] == "starts":
                 out.append("ok " + _ints(F[w[1]]["starts"](arr, add_exclusive_stop=(w[2] == "1"))))
             elif w[0] == "count":
@@ -749,15 +780,95 @@ def _expected_is_start(atoms, which):
     return st
 
 
+def _apply_mods(atoms, mods):
+    out = [list(a) + [0] * (5 - len(a)) for a in atoms]
+    for k, new in mods:
+        out[k] = list(new)
+    return out
+
+
+def _set_atom(arr, k, a):
+    """in-place edit of the annotations of atom k (no new array object)"""
+    arr.chain_id[k] = CHAINS[a[0]]
+    arr.res_id[k] = a[1]
+    arr.ins_code[k] = INS[a[2]]
+    arr.res_name[k] = NAMES[a[3]]
+    arr.hetero[k] = bool(a[4]) if len(a) > 4 else False
+
+
+def _spell_idx(name, idx):
+    """the same index values in another spelling (hardening class 3); None if the spelling cannot hold them"""
+    import numpy as np
+    a = np.array(idx, dtype=np.int64)
+    if name == "list":
+        return list(idx)
+    if name == "tuple":
+        return tuple(idx)
+    if name in ("int8", "uint8", "int16", "uint16", "int32", "uint32", "uint64"):
+        if len(a) and (a.max() > np.iinfo(name).max or a.min() < np.iinfo(name).min):
+            return None
+        return a.astype(name)
+    if name == "strided":
+        b = np.zeros(2 * len(a) + 1, dtype=np.int64)
+        b[1::2] = a
+        return b[1::2]
+    if name == "reversed-view":
+        return a[::-1].copy()[::-1]
+    if name == "readonly":
+        a.setflags(write=False)
+        return a
+    if name == "byteswapped":
+        return a.astype(">i8")
+    raise ValueError(name)
+
+
+IDX_SPELLINGS = ["list", "tuple", "int8", "uint8", "int16", "uint16", "int32", "uint32", "uint64", "strided",
+                 "reversed-view", "readonly", "byteswapped"]
+DATA_SPELLINGS = ["readonly", "strided", "fortran", "float32", "int32"]
+
+
+def _spell_data(name, d):
+    import numpy as np
+    d = np.array(d)
+    if name == "readonly":
+        d.setflags(write=False)
+        return d
+    if name == "strided":
+        b = np.zeros((2 * d.shape[0],) + d.shape[1:], dtype=d.dtype)
+        b[::2] = d
+        return b[::2]
+    if name == "fortran":
+        return np.asfortranarray(d)
+    if name == "float32":
+        return d.astype(np.float32) if d.dtype.kind in "if" else d
+    if name == "int32":
+        return d.astype(np.int32) if d.dtype.kind == "i" else d
+    raise ValueError(name)
+
+
 def _seg_oracle(case):
+    atoms = case["atoms"]
+    arr = _atom_array(atoms, case.get("stack") or 0)
+    v = _seg_check(case, atoms, arr, "")
+    mods = case.get("mods") or []
+    if mods and atoms:
+        # hardening class 1: edit the annotations of the SAME array object in place and ask again
+        atoms2 = _apply_mods(atoms, mods)
+        for k, new in mods:
+            _set_atom(arr, k, new)
+        case2 = dict(case, spread={w: list(range(_n_segments(atoms2, w))) for w in "rc"}, bad_spread=None)
+        v += _seg_check(case2, atoms2, arr, "after-in-place-annotation-edit/")
+    return v
+
+
+def _seg_check(case, atoms, arr, tag):
     import numpy as np
     import biotite.structure as struc
-    atoms = case["atoms"]
+    from biotite.structure import segments as seglib
     n = len(atoms)
-    arr = _atom_array(atoms, case.get("stack") or 0)
     data = np.array(case["data"], dtype=int)
     v = []
-    pre = "C17/empty-array/" if n == 0 else "C17/"
+    pre = ("C17/empty-array/" if n == 0 else "C17/") + tag
 
     def bad(key, msg):
         v.append((pre + key, f"{msg} (atoms={atoms if n <= 12 else str(atoms[:12]) + '...'})"))
@@ -819,6 +930,28 @@ def _seg_oracle(case):
                      or [str(x) for x in sg.chain_id] != [CHAINS[atoms[u][0]] for u in us]
                      or [str(x) for x in sg.ins_code] != [INS[atoms[u][2]] for u in us] for sg, us in zip(got, uids)):
                 bad(f"{nm}_iter/annotation-strings", "annotation strings of an iterated segment differ from the array's")
+        # malformed indices FIRST: must be rejected, never answered, and must leave array and argument untouched
+        # (hardening class 2); the valid calls below then run on the same objects
+        if case.get("bad_idx") is not None:
+            ba = np.array(case["bad_idx"], dtype=int)
+            for fname, f in ((f"get_{nm}_masks", f_masks), (f"get_{nm}_starts_for", f_sfor), (f"get_{nm}_positions", f_pos)):
+                try:
+                    r = f(arr, ba)
+                    bad(f"{fname}/accepts-invalid-index", f"{fname}({case['bad_idx']}) on {n} atoms returned {np.asarray(r).tolist()!r:.80}")
+                except (ValueError, IndexError):
+                    pass
+                except Exception as e:  # noqa: BLE001
+                    bad(f"{fname}/invalid-index-{type(e).__name__}", f"{fname}({case['bad_idx']}) raised {type(e).__name__}")
+                if ba.tolist() != list(case["bad_idx"]):
+                    bad(f"{fname}/refused-call-changed-argument", f"index array is now {ba.tolist()}")
+            if case.get("bad_spread") is not None:
+                bs = np.array(case["bad_spread"], dtype=int)
+                try:
+                    f_spread(arr, bs)
+                except Exception:  # noqa: BLE001
+                    pass
+                if bs.tolist() != list(case["bad_spread"]):
+                    bad(f"spread_{nm}_wise/refused-call-changed-argument", f"input is now {bs.tolist()}")
         # index views
         idx = case["idx"]
         if True:
@@ -834,17 +967,6 @@ def _seg_oracle(case):
             ok, got = call(f"get_{nm}_positions", f_pos, arr, ia)
             if ok and [int(x) for x in got] != [seg_of[i] for i in idx]:
                 bad(f"get_{nm}_positions/value", f"positions({idx}) = {list(map(int, got))}")
-        # malformed indices: must be rejected, never answered
-        if case.get("bad_idx") is not None:
-            ba = np.array(case["bad_idx"], dtype=int)
-            for fname, f in ((f"get_{nm}_masks", f_masks), (f"get_{nm}_starts_for", f_sfor), (f"get_{nm}_positions", f_pos)):
-                try:
-                    r = f(arr, ba)
-                    bad(f"{fname}/accepts-invalid-index", f"{fname}({case['bad_idx']}) on {n} atoms returned {np.asarray(r).tolist()!r:.80}")
-                except (ValueError, IndexError):
-                    pass
-                except Exception as e:  # noqa: BLE001
-                    bad(f"{fname}/invalid-index-{type(e).__name__}", f"{fname}({case['bad_idx']}) raised {type(e).__name__}")
         # apply: one value per segment, equal to the function on that segment's atoms; spread puts it back on atoms
         fn = _pyfn(case["fn"])
         ok, got = call(f"apply_{nm}_wise", f_apply, arr, data, fn)
@@ -886,9 +1008,82 @@ def _seg_oracle(case):
                 if ok2 and (np.asarray(sp).shape[0] != n or not np.allclose(
                         np.asarray(sp).astype(float), np.stack([expa[seg_of[i]] for i in range(n)]).astype(float), rtol=0, atol=1e-9)):
                     bad(f"spread_{nm}_wise/spread-apply", f"{what}: spread(apply(f))[i] != f(segment of i)")
-        ok, sp = call(f"spread_{nm}_wise", f_spread, arr, np.array(case["spread"][w], dtype=int))
+        spi = np.array(case["spread"][w], dtype=int)
+        ok, sp = call(f"spread_{nm}_wise", f_spread, arr, spi)
         if ok and [int(x) for x in sp] != [case["spread"][w][seg_of[i]] for i in range(n)]:
             bad(f"spread_{nm}_wise/value", f"spread = {list(map(int, sp))}")
+        # ---- hardening class 3: the same indices / data in another spelling give the same answers
+        exp_masks = [[seg_of[k] == seg_of[i] for k in range(n)] for i in idx]
+        for sp_name in case.get("spell") or []:
+            si = _spell_idx(sp_name, idx)
+            if si is None:
+                continue
+            for fname, f, expv in ((f"get_{nm}_masks", f_masks, exp_masks),
+                                   (f"get_{nm}_starts_for", f_sfor, [exp_starts[seg_of[i]] for i in idx]),
+                                   (f"get_{nm}_positions", f_pos, [seg_of[i] for i in idx])):
+                ok, got = call(f"{fname}[indices as {sp_name}]", f, arr, si)
+                if ok and (np.asarray(got).tolist() != expv and not (len(idx) == 0 and np.asarray(got).size == 0)):
+                    bad(f"{fname}/index-spelling", f"{fname}({idx} as {sp_name}) = {np.asarray(got).tolist()!r:.100}")
+            if sp_name in ("list", "tuple"):
+                ok, sp2 = call(f"spread_{nm}_wise[input as {sp_name}]", f_spread, arr,
+                               list(case["spread"][w]) if sp_name == "list" else tuple(case["spread"][w]))
+                if ok and [int(x) for x in sp2] != [case["spread"][w][seg_of[i]] for i in range(n)]:
+                    bad(f"spread_{nm}_wise/input-spelling", f"spread({sp_name}) = {list(map(int, sp2))}")
+        for ds_name in case.get("dspell") or []:
+            d2 = _spell_data(ds_name, case["data"])
+            ok, got = call(f"apply_{nm}_wise[data {ds_name}]", f_apply, arr, d2, fn)
+            exp = [np.asarray(fn(np.array(case["data"])[m])).tolist() for m in members]
+            if ok and got is not None and np.asarray(got).astype(float).tolist() != np.asarray(exp, dtype=float).reshape(np.asarray(got).shape).tolist():
+                bad(f"apply_{nm}_wise/data-spelling", f"apply({case['fn']}) on {ds_name} data = {np.asarray(got).tolist()} != {exp}")
+            for x in case.get("applyx") or []:
+                xd = _xdata(x, n)
+                x2 = _spell_data(ds_name, xd)
+                ok, got = call(f"apply_{nm}_wise[data {ds_name}]", _xapply, f_apply, arr, x2, x["fn"])
+                if ok and got is not None and members:
+                    expa = np.stack([np.asarray(_xdirect(x["fn"], xd[m])) for m in members]).astype(float)
+                    g = np.asarray(got).astype(float)
+                    if g.shape != expa.shape or not np.allclose(g, expa, rtol=0, atol=1e-4):
+                        bad(f"apply_{nm}_wise/data-spelling", f"apply({x['fn']}) on {ds_name} {x['kind']}-data {xd.shape} = {g.tolist()} != {expa.tolist()}")
+        # ---- hardening classes 4/7: the segment-level public functions, called directly with the starts array
+        ok, st = call(f"get_{nm}_starts-stop", f_starts, arr, True)          # positional flag
+        if ok and [int(x) for x in st] == exp_starts + [n]:
+            for st_name, st2 in (("int64", st), ("int32", st.astype(np.int32))):
+                okm, m2 = call("get_segment_masks", seglib.get_segment_masks, st2, ia)
+                if okm and (m2.shape != (len(idx), n) or m2.tolist() != exp_masks) and len(idx):
+                    bad("get_segment_masks/value", f"starts {st_name}: masks for {idx} differ from per-atom recomputation")
+                oks, s2 = call("get_segment_starts_for", seglib.get_segment_starts_for, st2, ia)
+                if oks and [int(x) for x in s2] != [exp_starts[seg_of[i]] for i in idx]:
+                    bad("get_segment_starts_for/value", f"starts {st_name}: {list(map(int, s2))}")
+                okp, p2 = call("get_segment_positions", seglib.get_segment_positions, st2, ia)
+                if okp and [int(x) for x in p2] != [seg_of[i] for i in idx]:
+                    bad("get_segment_positions/value", f"starts {st_name}: {list(map(int, p2))}")
+                oka, a2 = call("apply_segment_wise", seglib.apply_segment_wise, st2, data, fn)
+                if oka and a2 is not None and np.asarray(a2).tolist() != [np.asarray(fn(data[m])).tolist() for m in members]:
+                    bad("apply_segment_wise/value", f"starts {st_name}: apply({case['fn']}) = {np.asarray(a2).tolist()}")
+                for x in case.get("applyx") or []:
+                    f0, ax = _xfn(x["fn"])
+                    if ax is None:
+                        continue
+                    xd = _xdata(x, n)
+                    oka, a3 = call("apply_segment_wise[axis positional]", seglib.apply_segment_wise, st2, xd, f0, ax)
+                    if oka and members and not np.allclose(np.asarray(a3).astype(float),
+                                                           np.stack([np.asarray(f0(xd[m], axis=ax)) for m in members]).astype(float)):
+                        bad("apply_segment_wise/axis", f"apply({x['fn']}) with axis={ax} given positionally differs")
+                okq, q2 = call("spread_segment_wise", seglib.spread_segment_wise, st2, spi)
+                if okq and [int(x) for x in q2] != [case["spread"][w][seg_of[i]] for i in range(n)]:
+                    bad("spread_segment_wise/value", f"starts {st_name}: {list(map(int, q2))}")
+                oki, it2 = call("segment_iter", lambda: [[int(u) for u in s.uid] for s in seglib.segment_iter(arr, st2)])
+                if oki and it2 != members:
+                    bad("segment_iter/segments", f"starts {st_name}: {it2} != {members}")
+                if st2.tolist() != exp_starts + [n]:
+                    bad("segments/starts-argument-mutated", f"starts is now {st2.tolist()}")
+        # ---- hardening class 2: no call changed its arguments or the array
+        if ia.tolist() != list(idx) or data.tolist() != list(case["data"]) or spi.tolist() != list(case["spread"][w]):
+            bad(f"{nm}/argument-mutated", "an index / data / input array was changed by a call")
+        if ([str(x) for x in arr.chain_id] != [CHAINS[a[0]] for a in atoms] or [int(x) for x in arr.res_id] != [a[1] for a in atoms]
+                or [str(x) for x in arr.ins_code] != [INS[a[2]] for a in atoms] or [str(x) for x in arr.res_name] != [NAMES[a[3]] for a in atoms]
+                or [int(x) for x in arr.uid] != list(range(n))):
+            bad(f"{nm}/array-mutated", "the annotations of the atom array were changed by a query")
     return v
 
 
@@ -961,6 +1156,81 @@ def _graph_oracle_child(case):
         except (ValueError, OverflowError, IndexError):
             pass
 
+    # ---- hardening class 2: queries and refused calls leave the BondList as it was
+    snap = bl.as_array().tolist()
+    # ---- hardening class 3: the same root / the same bond table in another spelling
+    for r in case["roots"][:2]:
+        for name, rr in (("np.int64", np.int64(r)), ("np.int32", np.int32(r)), ("np.uint8", np.uint8(r % 256)),
+                         ("np.uint64", np.uint64(r)), ("np.intp", np.intp(r))):
+            if int(rr) != r:
+                continue
+            try:
+                c = [int(x) for x in struc.find_connected(bl, rr)]
+            except Exception as e:  # noqa: BLE001
+                v.append(("C17/find_connected/root-spelling", f"n={n} bonds={bonds} root={name}({r}): {type(e).__name__}"))
+                continue
+            if c != comp_of[r]:
+                v.append(("C17/find_connected/root-spelling", f"n={n} bonds={bonds} root={name}({r}): {c} != {comp_of[r]}"))
+    for r in case.get("bad_roots", []):
+        if -2 ** 63 <= r < 2 ** 63:
+            try:
+                c = struc.find_connected(bl, np.int64(r))
+                v.append(("C17/find_connected/accepts-invalid-root", f"n={n} root=np.int64({r}) returned {list(map(int, c))[:10]}"))
+            except (ValueError, OverflowError, IndexError):
+                pass
+    if bl.as_array().tolist() != snap:
+        v.append(("C17/find_connected/bond-list-mutated", f"n={n} bonds={bonds}: BondList changed by queries / refused calls"))
+    if bonds:
+        ba = _bond_array(bonds)
+        for name, b2 in (("uint32", ba.astype(np.uint32)), ("int32", ba.astype(np.int32)), ("fortran", np.asfortranarray(ba)),
+                         ("strided", np.concatenate([ba, ba], axis=1)[:, :3]), ("two-column", ba[:, :2].copy())):
+            try:
+                g = sorted([int(x) for x in m] for m in struc.get_molecule_indices(struc.BondList(n, b2)))
+            except Exception as e:  # noqa: BLE001
+                v.append(("C17/get_molecule_indices/bond-array-spelling", f"n={n} bonds={bonds} as {name}: {type(e).__name__}: {e}"))
+                continue
+            if g != exp:
+                v.append(("C17/get_molecule_indices/bond-array-spelling", f"n={n} bonds={bonds} as {name}: {g} != {exp}"))
+    # ---- hardening classes 4/7: every entry level (BondList / AtomArray / AtomArrayStack) of every function
+    depth = 1 + (n + len(bonds)) % 3
+    stk = struc.AtomArrayStack(depth, n)
+    stk.set_annotation("uid", np.arange(n, dtype=int))
+    stk.bonds = bl
+    for name, obj in (("AtomArray", arr), ("AtomArrayStack", stk)):
+        try:
+            g = sorted([int(x) for x in m] for m in struc.get_molecule_indices(obj))
+            mk = struc.get_molecule_masks(obj)
+            gm = sorted([i for i in range(n) if r[i]] for r in mk)
+            gi = sorted([int(u) for u in m.uid] for m in struc.molecule_iter(obj))
+            shapes_ok = all(type(m) is type(obj) for m in struc.molecule_iter(obj))
+        except Exception as e:  # noqa: BLE001
+            v.append((f"C17/molecules/{name}-{type(e).__name__}", f"n={n} bonds={bonds}: {e}"))
+            continue
+        if g != exp or gm != exp or mk.shape != (len(exp), n) or gi != exp or not shapes_ok:
+            v.append((f"C17/molecules/entry-level-{name}", f"n={n} bonds={bonds}: indices {g} masks {gm} iter {gi} != {exp}"))
+    # error paths: no BondList -> ValueError, wrong type -> TypeError; nothing is answered
+    nob = struc.AtomArray(n)
+    for fname, f in (("get_molecule_indices", struc.get_molecule_indices), ("get_molecule_masks", struc.get_molecule_masks),
+                     ("molecule_iter", lambda x: list(struc.molecule_iter(x)))):
+        try:
+            f(nob)
+            v.append((f"C17/{fname}/answers-without-bonds", f"n={n}: no BondList, but a result was returned"))
+        except ValueError:
+            pass
+        except Exception as e:  # noqa: BLE001
+            v.append((f"C17/{fname}/without-bonds-{type(e).__name__}", f"n={n}: {e}"))
+    for fname, f in (("get_molecule_indices", struc.get_molecule_indices), ("get_molecule_masks", struc.get_molecule_masks)):
+        try:
+            f(_bond_array(bonds))
+            v.append((f"C17/{fname}/answers-for-wrong-type", "an ndarray was accepted"))
+        except TypeError:
+            pass
+        except Exception as e:  # noqa: BLE001
+            v.append((f"C17/{fname}/wrong-type-{type(e).__name__}", f"{e}"))
+    # the refused calls changed nothing: same answer as at the start
+    if sorted([int(x) for x in m] for m in struc.get_molecule_indices(bl)) != exp:
+        v.append(("C17/get_molecule_indices/changed-after-refused-calls", f"n={n} bonds={bonds}"))
+
     def recheck(tag, blist, cur, what):
         """the molecules of `blist` must be the components of the bonds it holds NOW, whatever was asked before"""
         e = _components(n, cur)
@@ -970,6 +1240,11 @@ def _graph_oracle_child(case):
         mk = struc.get_molecule_masks(blist)
         if mk.shape != (len(e), n) or sorted([i for i in range(n) if r[i]] for r in mk) != e:
             v.append((f"C17/get_molecule_masks/{tag}", f"n={n} {what}: masks differ from connected components {e}"))
+        cof = {x: c for c in e for x in c}
+        for r in case["roots"][:2]:
+            c = [int(x) for x in struc.find_connected(blist, r)]
+            if c != cof[r]:
+                v.append((f"C17/find_connected/{tag}", f"n={n} {what} root={r}: {c} != {cof[r]}"))
         a2 = struc.AtomArray(n)
         a2.set_annotation("uid", np.arange(n, dtype=int))
         a2.bonds = blist
